@@ -104,6 +104,12 @@ CHECKS["C09"] = {
     "note": "NOT decided: code-point ordering of Rust's String comparison (trusted), the numeric value of conversions on every string.",
     "technique": "CFG path rules on the between helper; variant specialisation over the pair of primitive kinds with comparison-operator and operand-order reading; sibling agreement; A3 dominance gate",
 }
+CHECKS["C10"] = {
+    "level": "other",
+    "text": "Necessary structural conditions of arithmetic: in the one f64→JSON conversion the saturating float→int cast is edge-dominated by the exact test fract(x)==0.0 and by x >= -2^63 and x < 2^63 (constants read), the cast operand is the result itself, no rounding call, otherwise Number::from_f64 whose None becomes Err; each of + - * / % min max returns only through that conversion and builds no JSON number elsewhere; only double arithmetic in their reach (no integer accessor, integer op or int/float cast), with the documented float operation, operand order (first op second), fold identities (0.0, 1.0, +inf, -inf read from the fold seeds); + and * reach only the parseFloat-style conversion, the others only the Number-style one; every conversion result is turned into Err at its site and never defaulted/skipped.",
+    "note": "NOT decided: digit-level exactness of parse_float_string / the string→number conversion, integer/fraction spelling at boundary values beyond the guards read. Trusted: IEEE semantics of MIR float ops, Number::from_f64, Rust's float parser.",
+    "technique": "dominance + constant reading on the conversion function; return-path and reach scans over operator units; operation/operand-order reading from MIR BinaryOps; call-graph routing",
+}
 NOT_APPLICABLE = {}
 for i in range(1, 20):
     p = "C%02d" % i
